@@ -330,7 +330,7 @@ func termRuleText() string {
 	}
 	return "PHASE T (term boundaries, TermDuration=8, InterimDuration=2, two deputies, real node: factory-mined block + other deputy's confirm through InsertBlock, stable before the next block): " +
 		"every history = scenario prefix + one block letter per window height (A*: 7..12, B*: 15..20 = interim-1/term end, snapshot, interim, reward-1, reward block, reward+1) with at most K non-empty blocks, all positions x all letters; plans scenario/alphabet/K: " +
-		strings.Join(parts, ", ") + "; letters: unregister (candidate, elected candidate, genesis deputy, in/out of office), register (min, +99, +150, 1 short, isCandidate=false), top-ups, income-address changes, transfers to/from candidates and into the pool address, votes, set-reward {terms cur-1..cur+2} x {0, 1 LEMO, 3 LEMO, 7 LEMO+3 mo, 900M-1 LEMO, 900M, negative} by the manager and by a stranger, with LEMO attached, set+update(+third change), multi-transaction blocks and boxes; " +
+		strings.Join(parts, ", ") + "; letters: unregister (candidate, elected candidate, genesis deputy, in/out of office), register (min, +99, +150, 1 short, isCandidate=false), top-ups, income-address changes, transfers to/from candidates and into the pool address, votes, set-reward {terms cur-1..cur+2} x {0, 1 LEMO, 3 LEMO, 7 LEMO+3 mo, 900M-1 LEMO, 900M, negative} by the manager and by a stranger, with LEMO attached, set+update(+third change), gas paid by a third party, multi-transaction blocks, boxes, node restart before an empty block; " +
 		"oracle S1-S4 of term.go after every block on the miner's post-state (sum of balance changes == salaries by an independent reference, 0 off reward blocks; no negative balance; deposit ledger; per-account fees / amounts / deposits / refunds / salaries); a distinct outcome of phase T is (height class, tx count, fees, issued, refund receivers, deposits paid)"
 }
 
